@@ -218,6 +218,119 @@ Definition lk_eth_value_precheck (s : lk_state) (value : Z) : bool :=
   let spendable := if lk_bal s <? l then 0 else lk_bal s - l in
   value <=? spendable.
 
+(** ---- the account-type operations ----
+    x/vesting/keeper/msg_server.go  ConvertVestingAccount (vesting -> EthAccount), ConvertIntoVestingAccount +
+    x/vesting/keeper/schedule.go ApplyVestingSchedule (EthAccount -> vesting, or a merge), UpdateVestingFunder,
+    and the funder checks of Clawback / CreateClawbackVestingAccount{Merge}.
+
+    The state gets a KIND.  For a plain account the stored account has no
+    schedule and no delegation tracking: the bank debits against the whole
+    balance, the staking guard does not apply, TrackDelegation/TrackUndelegation
+    are not called, Clawback / merge / funder update are refused.  [lk_a] of a
+    plain state is a ghost: the vesting record that the conversion discarded
+    (untouched by every plain operation), kept so that theorems can speak about
+    the obligation "as if the account had not been converted". *)
+Definition lk_locked_up (a : lk_acct) (t : Z) : Z :=            (* GetLockedUpCoins *)
+  lk_orig a - lk_unlocked a t.
+(** what the SCHEDULE locks at t, regardless of any delegation: max(locked-up, unvested) *)
+Definition lk_sched_locked (a : lk_acct) (t : Z) : Z :=
+  lk_orig a - lk_unlocked_vested a t.
+
+Definition LK_NOTVESTING : N := 5.     (* GetClawbackVestingAccount fails / "must be a clawback vesting account" *)
+Definition LK_UNAUTHORIZED : N := 6.   (* signer is not the account's funder *)
+Definition LK_LOCKED : N := 7.         (* ConvertVestingAccount: vesting or locked up coins still left in account *)
+
+(** which amount MsgConvertVestingAccount's second check (HasLockedCoins) looks at:
+    the lock-up schedule (the code: !GetLockedUpCoins(t).IsZero()), or the
+    bank-facing LockedCoins(t) (not the code; kept for the refutation) *)
+Inductive lk_guard := LkGuardSchedule | LkGuardBank.
+
+Definition lk_convert_guard (g : lk_guard) (a : lk_acct) (t : Z) : bool :=
+  (lk_unvested a t =? 0)                                  (* GetVestingCoins(t).IsZero() *)
+  && match g with
+     | LkGuardSchedule => lk_locked_up a t =? 0
+     | LkGuardBank => lk_locked_coins a t =? 0
+     end.
+
+Record lkx_state := mklkx {
+  lx_s : lk_state;
+  lx_vesting : bool;      (* the stored account is a ClawbackVestingAccount *)
+  lx_funder : N           (* FunderAddress (meaningful for a vesting account) *)
+}.
+
+Inductive lkx_op :=
+| LxBase (o : lk_op) (signer : N)      (* signer: of MsgClawback / MsgCreateClawbackVestingAccount{Merge}; ignored otherwise *)
+| LxConvert                            (* MsgConvertVestingAccount *)
+| LxConvertInto (signer : N) (merge : bool) (g start' end' : Z) (lockup' vesting' : list lk_period)
+| LxUpdateFunder (signer new : N).
+
+Definition lk_needs_funder (o : lk_op) : bool :=
+  match o with LkClawback _ _ => true | LkAddGrant _ _ _ _ _ => true | _ => false end.
+
+(** the operations of [lk_op] on a plain account *)
+Definition lk_plain_step (s : lk_state) (o : lk_op) : lk_state * N :=
+  match o with
+  | LkReceive x => if x <? 0 then (s, LK_INVALID) else (lk_set_bal s (lk_bal s + x), LK_OK)
+  | LkSend x =>
+      if x <=? 0 then (s, LK_INVALID) else
+      if lk_bal s <? x then (s, LK_INSUFFICIENT) else (lk_set_bal s (lk_bal s - x), LK_OK)
+  | LkDelegate x =>
+      if negb (lk_bond s) then (s, LK_INVALID) else
+      if x <=? 0 then (s, LK_INVALID) else
+      if lk_bal s <? x then (s, LK_INSUFFICIENT) else
+      (mklk (lk_a s) (lk_bal s - x) (lk_deleg s + x) (lk_unb s) (lk_now s) (lk_bond s), LK_OK)
+  | LkUndelegate x => lk_undelegate s x
+  | LkComplete y =>
+      if (y <=? 0) || (lk_unb s <? y) then (s, LK_INVALID) else
+      (mklk (lk_a s) (lk_bal s + y) (lk_deleg s) (lk_unb s - y) (lk_now s) (lk_bond s), LK_OK)
+  | LkSlash d' u' => lk_slash s d' u'
+  | LkAdvance dt => if dt <? 0 then (s, LK_INVALID)
+                    else (mklk (lk_a s) (lk_bal s) (lk_deleg s) (lk_unb s) (lk_now s + dt) (lk_bond s), LK_OK)
+  | LkClawback _ _ => (s, LK_NOTVESTING)
+  | LkAddGrant _ _ _ _ _ => (s, LK_NOTVESTING)
+  end.
+
+(** ApplyVestingSchedule on an EthAccount: a new vesting record around the same base account;
+    DelegatedFree := bonded + unbonding (bond denomination); then SendCoins(funder -> account) *)
+Definition lk_into_vesting (s : lk_state) (g start' end' : Z) (lockup' vesting' : list lk_period) : lk_state * N :=
+  if g <? 0 then (s, LK_INVALID) else
+  let a' := mklka g lockup' vesting' start' end' 0 (if lk_bond s then lk_deleg s + lk_unb s else 0) in
+  if negb (lk_wf_b a') then (s, LK_SCHEDULE) else
+  (mklk a' (lk_bal s + g) (lk_deleg s) (lk_unb s) (lk_now s) (lk_bond s), LK_OK).
+
+Definition lkx_step_g (gd : lk_guard) (s : lkx_state) (o : lkx_op) : lkx_state * N :=
+  let c := lx_s s in
+  match o with
+  | LxBase o signer =>
+      if lx_vesting s then
+        if lk_needs_funder o && negb (signer =? lx_funder s)%N then (s, LK_UNAUTHORIZED)
+        else let r := lk_step c o in (mklkx (fst r) true (lx_funder s), snd r)
+      else let r := lk_plain_step c o in (mklkx (fst r) false (lx_funder s), snd r)
+  | LxConvert =>
+      if negb (lx_vesting s) then (s, LK_NOTVESTING) else
+      if lk_convert_guard gd (lk_a c) (lk_now c) then (mklkx c false (lx_funder s), LK_OK) else (s, LK_LOCKED)
+  | LxConvertInto signer merge g st e l v =>
+      if lx_vesting s then
+        if negb merge then (s, LK_INVALID) else
+        if negb (signer =? lx_funder s)%N then (s, LK_UNAUTHORIZED) else
+        let r := lk_add_grant c g st e l v in (mklkx (fst r) true (lx_funder s), snd r)
+      else
+        let r := lk_into_vesting c g st e l v in
+        if (snd r =? LK_OK)%N then (mklkx (fst r) true signer, LK_OK) else (s, snd r)
+  | LxUpdateFunder signer new =>
+      if negb (lx_vesting s) then (s, LK_NOTVESTING) else
+      if negb (signer =? lx_funder s)%N then (s, LK_UNAUTHORIZED) else
+      if (signer =? new)%N then (s, LK_INVALID) else     (* ValidateBasic: new funder = current funder *)
+      (mklkx c true new, LK_OK)
+  end.
+
+(** the code *)
+Definition lkx_step : lkx_state -> lkx_op -> lkx_state * N := lkx_step_g LkGuardSchedule.
+
+Definition lkx_run_g (gd : lk_guard) (ops : list lkx_op) (s : lkx_state) : lkx_state :=
+  fold_left (fun s o => fst (lkx_step_g gd s o)) ops s.
+Definition lkx_run : list lkx_op -> lkx_state -> lkx_state := lkx_run_g LkGuardSchedule.
+
 (** ---- correspondence with the harness: two denominations (0 = bond) ---- *)
 Inductive lk_op2 :=
 | L2Receive (x0 x1 : Z)
@@ -228,50 +341,72 @@ Inductive lk_op2 :=
 | L2Complete (y : Z)
 | L2Slash (d' u' : Z)
 | L2Advance (dt : Z)
-| L2Clawback (l0 l1 : list lk_period) (end' : Z)
-| L2AddGrant (g0 g1 start' end' : Z) (l0 l1 v0 v1 : list lk_period).
+| L2Clawback (signer : N) (l0 l1 : list lk_period) (end' : Z)
+| L2AddGrant (signer : N) (g0 g1 start' end' : Z) (l0 l1 v0 v1 : list lk_period)
+| L2Convert
+| L2ConvertInto (signer : N) (merge : bool) (g0 g1 start' end' : Z) (l0 l1 v0 v1 : list lk_period)
+| L2UpdateFunder (signer new : N).
 
-Definition lk_pair : Type := (lk_state * lk_state)%type.
+Definition lk_pair : Type := (lkx_state * lkx_state)%type.
 
-Definition lk_both (s : lk_pair) (r0 r1 : lk_state * N) : lk_pair * bool :=
+Definition lk_both (s : lk_pair) (r0 r1 : lkx_state * N) : lk_pair * bool :=
   if (snd r0 =? LK_OK)%N && (snd r1 =? LK_OK)%N then ((fst r0, fst r1), true) else (s, false).
 
-Definition lk_skip0 (f : lk_state -> Z -> lk_state * N) (s : lk_state) (x : Z) : lk_state * N :=
+Definition lk_skip0 (f : lkx_state -> Z -> lkx_state * N) (s : lkx_state) (x : Z) : lkx_state * N :=
   if x =? 0 then (s, LK_OK) else f s x.
+
+Definition lkx_base (o : lk_op) (s : lkx_state) : lkx_state * N := lkx_step s (LxBase o 0%N).
+Definition lkx_send (s : lkx_state) (x : Z) : lkx_state * N := lkx_base (LkSend x) s.
+
+(** the eth ante vesting decorator only looks at clawback vesting accounts ("continue" otherwise) *)
+Definition lkx_eth_value_precheck (s : lkx_state) (value : Z) : bool :=
+  if lx_vesting s then lk_eth_value_precheck (lx_s s) value else true.
 
 Definition lk_step2 (s : lk_pair) (o : lk_op2) : lk_pair * bool :=
   let '(s0, s1) := s in
   match o with
-  | L2Receive x0 x1 => lk_both s (lk_step s0 (LkReceive x0)) (lk_step s1 (LkReceive x1))
+  | L2Receive x0 x1 => lk_both s (lkx_base (LkReceive x0) s0) (lkx_base (LkReceive x1) s1)
   | L2Send x0 x1 =>
       if (x0 =? 0) && (x1 =? 0) then (s, false)
-      else lk_both s (lk_skip0 lk_send s0 x0) (lk_skip0 lk_send s1 x1)
-  | L2EthPre v acc => (s, Bool.eqb (lk_eth_value_precheck s0 v) acc)
-  | L2Delegate x => lk_both s (lk_delegate s0 x) (s1, LK_OK)
-  | L2Undelegate x => lk_both s (lk_undelegate s0 x) (s1, LK_OK)
-  | L2Complete y => lk_both s (lk_complete s0 y) (s1, LK_OK)
-  | L2Slash d u => lk_both s (lk_slash s0 d u) (s1, LK_OK)
-  | L2Advance dt => lk_both s (lk_step s0 (LkAdvance dt)) (lk_step s1 (LkAdvance dt))
-  | L2Clawback l0 l1 e => lk_both s (lk_clawback s0 l0 e) (lk_clawback s1 l1 e)
-  | L2AddGrant g0 g1 st e l0 l1 v0 v1 => lk_both s (lk_add_grant s0 g0 st e l0 v0) (lk_add_grant s1 g1 st e l1 v1)
+      else lk_both s (lk_skip0 lkx_send s0 x0) (lk_skip0 lkx_send s1 x1)
+  | L2EthPre v acc => (s, Bool.eqb (lkx_eth_value_precheck s0 v) acc)
+  | L2Delegate x => lk_both s (lkx_base (LkDelegate x) s0) (s1, LK_OK)
+  | L2Undelegate x => lk_both s (lkx_base (LkUndelegate x) s0) (s1, LK_OK)
+  | L2Complete y => lk_both s (lkx_base (LkComplete y) s0) (s1, LK_OK)
+  | L2Slash d u => lk_both s (lkx_base (LkSlash d u) s0) (s1, LK_OK)
+  | L2Advance dt => lk_both s (lkx_base (LkAdvance dt) s0) (lkx_base (LkAdvance dt) s1)
+  | L2Clawback sg l0 l1 e => lk_both s (lkx_step s0 (LxBase (LkClawback l0 e) sg)) (lkx_step s1 (LxBase (LkClawback l1 e) sg))
+  | L2AddGrant sg g0 g1 st e l0 l1 v0 v1 =>
+      lk_both s (lkx_step s0 (LxBase (LkAddGrant g0 st e l0 v0) sg)) (lkx_step s1 (LxBase (LkAddGrant g1 st e l1 v1) sg))
+  | L2Convert => lk_both s (lkx_step s0 LxConvert) (lkx_step s1 LxConvert)
+  | L2ConvertInto sg m g0 g1 st e l0 l1 v0 v1 =>
+      lk_both s (lkx_step s0 (LxConvertInto sg m g0 st e l0 v0)) (lkx_step s1 (LxConvertInto sg m g1 st e l1 v1))
+  | L2UpdateFunder sg nw => lk_both s (lkx_step s0 (LxUpdateFunder sg nw)) (lkx_step s1 (LxUpdateFunder sg nw))
   end.
 
 Record lk_obs := mklkobs {
   lo_ok : bool;
+  lo_vesting : bool;                  (* the stored account is a clawback vesting account *)
   lo_bal0 : Z; lo_bal1 : Z;
-  lo_locked0 : Z; lo_locked1 : Z;     (* LockedCoins(now) of the stored account *)
-  lo_df : Z; lo_dv : Z;               (* bond denomination *)
+  lo_locked0 : Z; lo_locked1 : Z;     (* LockedCoins(now) of the stored account (0 for a plain account) *)
+  lo_df : Z; lo_dv : Z;               (* bond denomination (0 for a plain account) *)
   lo_deleg : Z; lo_unb : Z
 }.
+
+Definition lkx_locked_now (s : lkx_state) : Z :=
+  if lx_vesting s then lk_locked_coins (lk_a (lx_s s)) (lk_now (lx_s s)) else 0.
+Definition lkx_df_now (s : lkx_state) : Z := if lx_vesting s then lk_df (lk_a (lx_s s)) else 0.
+Definition lkx_dv_now (s : lkx_state) : Z := if lx_vesting s then lk_dv (lk_a (lx_s s)) else 0.
 
 Definition lk_check_obs (s : lk_pair) (ok : bool) (ob : lk_obs) : bool :=
   let '(s0, s1) := s in
   Bool.eqb ok (lo_ok ob)
-  && (lk_bal s0 =? lo_bal0 ob) && (lk_bal s1 =? lo_bal1 ob)
-  && (lk_locked_coins (lk_a s0) (lk_now s0) =? lo_locked0 ob)
-  && (lk_locked_coins (lk_a s1) (lk_now s1) =? lo_locked1 ob)
-  && (lk_df (lk_a s0) =? lo_df ob) && (lk_dv (lk_a s0) =? lo_dv ob)
-  && (lk_deleg s0 =? lo_deleg ob) && (lk_unb s0 =? lo_unb ob).
+  && Bool.eqb (lx_vesting s0) (lo_vesting ob) && Bool.eqb (lx_vesting s1) (lo_vesting ob)
+  && (lk_bal (lx_s s0) =? lo_bal0 ob) && (lk_bal (lx_s s1) =? lo_bal1 ob)
+  && (lkx_locked_now s0 =? lo_locked0 ob)
+  && (lkx_locked_now s1 =? lo_locked1 ob)
+  && (lkx_df_now s0 =? lo_df ob) && (lkx_dv_now s0 =? lo_dv ob)
+  && (lk_deleg (lx_s s0) =? lo_deleg ob) && (lk_unb (lx_s s0) =? lo_unb ob).
 
 (** a step without observation is an intermediate step of one implementation
     event (the eth ante verdict, the time advance of an end-block, the payout of
